@@ -154,6 +154,23 @@ def run(prop, tier):
                     sec = section_of(alone, off)
                     viols.append(dict(prop="C14", key="in_sequence/bytes_depend_on_previous_saves/" + sec.split("(")[0], detail="%s saved after other objects in the same process differs from the same object saved alone at offset %d (%s), sizes %d/%d" % (os.path.basename(paths[i]), off, sec, la, lb), case=i, files=[paths[i], alone, seqf]))
                     break
+        # (3e) objects "reachable by loading" that no well-formed file gives: header words and parameter fields of small corpus files set to
+        # boundary values; whatever still loads is saved twice (snapshot equality around the save, byte equality of the two files)
+        sys.path.insert(0, os.path.join(C.VERIF, "ref"))
+        import damage
+        pspecs = []
+        for sp in [p_ for p_ in paths if os.path.getsize(p_) < 5000][:10 if q else 60]:
+            ss = damage.specs_for(sp, open(sp, "rb").read(), C.seed(), quick=True)
+            pspecs += [x for k_, x in ss if k_.startswith("field:hdr")] + [x for k_, x in ss if k_.startswith("field:") and not k_.startswith("field:hdr")][C.seed() % 5::5]
+        pspecs = pspecs[:3000 if q else 30000]
+        plst = os.path.join(wd, "perturbed.txt")
+        open(plst, "w").write("\n".join(pspecs) + "\n")
+        opert = os.path.join(wd, "perturbed")
+        C.run_driver(asan, "damage", len(pspecs), opert, args=["--list", plst, "--savecheck", "1", "--timeout", "90", "--hardmult", "256"], chunk=200)
+        RP = C.parse_out(opert)
+        viols += [v for v in RP.viol if v["prop"] == "C14"]
+        stats["perturbed_files_tried"] = len(pspecs)
+        stats["objects_loaded_from_perturbed_files_and_saved_twice"] = RP.cnt.get("c14_perturbed_objects_saved", 0)
         # (4) memcheck: definedness of every byte handed to write(2)
         nm = 40 if q else 400
         mdir = os.path.join(wd, "memcheck")
